@@ -170,6 +170,8 @@ type sysRun struct {
 
 	tolerateBadOpts bool
 	sigKilled       bool
+	sigTermAt       time.Duration // when SIGTERM/SIGHUP arrived while a foreground command was running
+	sigTermCmd      string
 	pipeDied        bool
 	pipeLeft        []string // child processes alive and never signalled at the first write to a closed stdout
 	sigLeft         []string // child processes alive and never signalled when a signal without handler ended fzf
@@ -596,6 +598,16 @@ func (r *sysRun) user() {
 			}
 			r.c.count("fault.signal_"+ev.Sig, 1)
 			r.sim.Logf("signal %s", ev.Sig)
+			if delivered && ev.Sig != "INT" && r.sigTermAt == 0 {
+				// SIGTERM / SIGHUP are for fzf itself whatever it is doing: also while a command it has
+				// started in the foreground is still running
+				for _, p := range r.os.Snapshot() {
+					if p.Alive && strings.HasPrefix(p.Command, "EX") && p.Parent == nil {
+						r.sigTermAt = r.sim.Now()
+						r.sigTermCmd = p.Command
+					}
+				}
+			}
 			if !delivered {
 				// no handler installed (yet): the default action ends the process; nothing of fzf's runs any more
 				r.sigKilled = true
